@@ -217,7 +217,29 @@ def b_sqrt(ex, p, args, kwargs, node):
     yield from hook(ex, p, v, node)
 
 
+class WorkDps:
+    """mpmath.workdps(n) context manager: mp.dps := n inside the block, restored afterwards"""
+    pytype = 'contextmanager'
+
+    def __init__(self, n):
+        self.n = n
+
+    def cm_enter(self, ex, p):
+        self.saved = p.ghost.get('mp_dps')
+        p.ghost['mp_dps'] = self.n
+        from .values import NONE
+        return NONE
+
+    def cm_exit(self, ex, p):
+        p.ghost['mp_dps'] = self.saved
+
+
+def b_workdps(ex, p, args, kwargs, node):
+    yield p, WorkDps(to_int_val(args[0]))
+
+
 BUILTINS = {
+    'mpmath.workdps': b_workdps,
     'mpmath.mpf': b_mpf, 'mpmath.floor': _unary('floor'), 'mpmath.ceil': _unary('ceil'),
     'mpmath.fabs': _unary('fabs'), 'mpmath.sqrt': b_sqrt,
 }
